@@ -13,8 +13,8 @@ use crate::coroutine_impl::{co_cancel_data, run_coroutine, CoroutineImpl, EventS
 use crate::scheduler::get_scheduler;
 use crate::sync::atomic_dur::AtomicDuration;
 use crate::sync::AtomicOption;
-use crate::timeout_list::TimeoutHandle;
-use crate::yield_now::{get_co_para, yield_now, yield_with};
+use crate::timeout_list::{now, TimeoutHandle};
+use crate::yield_now::{get_co_para, set_co_para, yield_now, yield_with};
 
 #[derive(Debug, Copy, Clone, Eq, PartialEq)]
 pub enum ParkError {
@@ -204,16 +204,26 @@ impl EventSource for Park {
         let cancel = co_cancel_data(&co);
         // if we share the same park, the previous timer may wake up it by false
         // if we not deleted the timer in time
-        let timeout_handle = self
-            .timeout
-            .take()
-            .map(|dur| get_scheduler().add_timer(dur, self.wait_co.clone()));
+        let dur = self.timeout.take();
+        // the deadline can't be later than this
+        let deadline = dur.map(|dur| now().saturating_add(dur.as_nanos() as u64));
+        let timeout_handle = dur.map(|dur| get_scheduler().add_timer(dur, self.wait_co.clone()));
         self.set_timeout_handle(timeout_handle);
 
         let _g = self.delay_drop();
 
         // register the coroutine
         self.wait_co.store(co);
+
+        // if we were stalled for longer than the timeout the timer may have
+        // fired already and found nothing to wake, do the timeout ourselves
+        if deadline.is_some_and(|t| now() >= t) {
+            if let Some(mut co) = self.wait_co.take() {
+                set_co_para(&mut co, std::io::Error::new(ErrorKind::TimedOut, "timeout"));
+                run_coroutine(co);
+            }
+            return;
+        }
 
         // re-check the state, only clear once after resume
         if self.state.load(Ordering::Acquire) {
